@@ -89,15 +89,15 @@ func controlCase(c *Case) *Case {
 
 // Finding is a violation of the property under test, minimised.
 type Finding struct {
-	Seed    uint64 `json:"seed"`
-	Oracle  string `json:"oracle"`
-	Finger  string `json:"finger"`
-	Detail  string `json:"detail"`
-	Replay  string `json:"replay"`
-	Hash    uint64 `json:"hash"`
-	Runs    int    `json:"shrink_runs"`
-	Size0   int    `json:"size_before"`
-	Size1   int    `json:"size_after"`
+	Seed   uint64 `json:"seed"`
+	Oracle string `json:"oracle"`
+	Finger string `json:"finger"`
+	Detail string `json:"detail"`
+	Replay string `json:"replay"`
+	Hash   uint64 `json:"hash"`
+	Runs   int    `json:"shrink_runs"`
+	Size0  int    `json:"size_before"`
+	Size1  int    `json:"size_after"`
 }
 
 // ReplayFile is the on-disk replay format.
@@ -137,14 +137,14 @@ type WorkerOut struct {
 }
 
 type workerJob struct {
-	Prop     string `json:"prop"`
-	Thorough bool   `json:"thorough"`
-	Base     uint64 `json:"base"`
-	Start    int    `json:"start"`
-	Stride   int    `json:"stride"`
-	MaxRuns  int    `json:"max_runs"`
-	Deadline int64  `json:"deadline_unix_ms"`
-	Out      string `json:"out"`
+	Prop     string   `json:"prop"`
+	Thorough bool     `json:"thorough"`
+	Base     uint64   `json:"base"`
+	Start    int      `json:"start"`
+	Stride   int      `json:"stride"`
+	MaxRuns  int      `json:"max_runs"`
+	Deadline int64    `json:"deadline_unix_ms"`
+	Out      string   `json:"out"`
 	Known    []string `json:"known"`
 	Seeds    []uint64 `json:"seeds,omitempty"` // explicit seeds (determinism re-runs)
 }
